@@ -191,13 +191,15 @@ func runC09Body(ctx0 *ev.Ctx, c c09Case) {
 	db := overlaydb.NewMemDB(64, 4) // small capacities: force buffer growth
 	model := map[string][]byte{}
 	wasTomb := map[string]bool{} // keys that are currently tombstones (for the non-trivial rule)
-	sumSize := func() int {
-		n := 0
-		for k, v := range model {
-			n += len(k) + len(v)
+	modelSize := 0 // sum of key+value lengths of the model's entries, maintained incrementally
+	set := func(k, v []byte) {
+		if old, ok := model[string(k)]; ok {
+			modelSize -= len(k) + len(old)
 		}
-		return n
+		model[string(k)] = append([]byte{}, v...)
+		modelSize += len(k) + len(v)
 	}
+	sumSize := func() int { return modelSize }
 	put := func(i int, k, v []byte) {
 		if p := ev.Catch(func() { db.Put(k, v) }); p != "" {
 			ctx.Failf("op %d: Put(%x,%x) panicked: %s", i, k, v, p)
@@ -207,7 +209,7 @@ func runC09Body(ctx0 *ev.Ctx, c c09Case) {
 			ctx.Label("overwrite-after-delete")
 		}
 		wasTomb[string(k)] = len(v) == 0
-		model[string(k)] = append([]byte{}, v...)
+		set(k, v)
 	}
 	for i, op := range append(append([]c09Op{}, c.Pre...), c.Ops...) {
 		switch op.Op {
@@ -230,7 +232,7 @@ func runC09Body(ctx0 *ev.Ctx, c c09Case) {
 				ctx.Failf("op %d: Delete(%x) panicked: %s", i, []byte(op.K), p)
 			}
 			wasTomb[string(op.K)] = true
-			model[string(op.K)] = []byte{}
+			set(op.K, nil)
 		case "get":
 			var v []byte
 			var unknown bool
@@ -282,6 +284,7 @@ func runC09Body(ctx0 *ev.Ctx, c c09Case) {
 		case "reset":
 			db.Reset()
 			model = map[string][]byte{}
+			modelSize = 0
 			wasTomb = map[string]bool{}
 			ctx.Label("reset")
 		case "scan":
